@@ -18,6 +18,7 @@ import (
 	fixgen "github.com/b2broker/simplefix-go/tests/fix44"
 	"github.com/b2broker/simplefix-go/utils"
 
+	"verifharness/fixref"
 	"verifharness/rig"
 	"verifharness/wire"
 )
@@ -223,23 +224,27 @@ func session1(seed int64, i int) (ivs []interval, frames []rig.Frame, logged boo
 			t0 := time.Now()
 			l.Conn.Feed(p.Logout())
 			time.Sleep(time.Duration(r.Intn(3000)) * time.Microsecond)
-			l.Conn.Feed(p.Logon(1, "0"))
+			l.Conn.Feed(p.Logon(1, "0", fixref.F("141", "Y")))
 			rec("inbound-logout-logon", t0, time.Now().Add(30*time.Millisecond))
 			at(2 * time.Second)
 			l.Conn.Feed(p.Heartbeat())
 			at(3*time.Second + sweep)
 			l.Conn.Feed(p.Logout())
-			l.Conn.Feed(p.Logon(1, "0"))
+			l.Conn.Feed(p.Logon(1, "0", fixref.F("141", "Y")))
 			at(4 * time.Second)
 			l.Conn.Feed(p.TestRequest("b"))
 		case "relogon-storm":
-			// the peer logs out and on again every 150 ms while senders keep sending
-			for k := 0; k < 20; k++ {
-				at(time.Duration(400+k*150)*time.Millisecond + sweep/8)
+			// the peer logs out and on again every 75 ms while senders keep sending
+			for k := 0; k < 40; k++ {
+				at(time.Duration(400+k*75)*time.Millisecond + sweep/8)
 				t0 := time.Now()
 				l.Conn.Feed(p.Logout())
 				time.Sleep(time.Duration(r.Intn(2000)) * time.Microsecond)
-				l.Conn.Feed(p.Logon(1, "0"))
+				if k%3 != 0 || i%4 >= 2 {
+					l.Conn.Feed(p.Logon(1, "0", fixref.F("141", "Y"))) // the peer asks for a sequence reset
+				} else {
+					l.Conn.Feed(p.Logon(1, "0"))
+				}
 				rec("inbound-logout-logon", t0, time.Now().Add(10*time.Millisecond))
 			}
 		default:
